@@ -22,10 +22,11 @@ def corpus(tier, seed):
     inputs = []
     q = tier == "quick"
     for fam in FAMILIES:
-        inputs += EL.family_inputs(rng, fam, cands, 2, D.INT_W(2), per_bag=(2 if fam in ("stv", "oneshot", "composite") else 3) if q else (12 if fam in ("stv", "oneshot", "composite") else None))
+        pb = {"stv": 2, "oneshot": 2, "composite": 2, "tiered": 3, "dictators": 2, "veto": 1}[fam] if q else (12 if fam in ("stv", "oneshot", "composite") else None)
+        inputs += EL.family_inputs(rng, fam, cands, 2, D.INT_W(2), per_bag=pb)
         if fam not in ("veto",):
             inputs += EL.family_inputs(rng, fam, cands, 1, D.HALF_W, per_bag=4 if q else None)
-        inputs += EL.family_sampled(rng, fam, 150 if q else 3000, (4, 6), 8)
+        inputs += EL.family_sampled(rng, fam, (60 if fam == "veto" else 150) if q else 3000, (4, 6), 8)
     # corners named in the statement: the empty ballot list, a single candidate, all ballots exhausting early
     for fam in FAMILIES:
         for c in EL.family_configs(fam, 1):
